@@ -406,6 +406,39 @@ def run (ctx):
            "`%s` (line %s) leaves the loop over the mask's bits: the remaining bits of the same port-mod (e.g. NO_FWD, NO_FLOOD, NO_RECV after an unsupported NO_STP change) are silently not applied and the port keeps forwarding"
            % (leave[0].text(40), leave[0].line), (swmod, leave[0].ast) if leave else pm, 'D4')
   spb = q.find_method(repo, sw, '_set_port_config_bit', 'C12'); ctx.analysed(spb)
+  # by evaluation, across the two functions: only a change of the PORT_DOWN bit touches the link state.  ofp_phy_port.set_config is
+  # evaluated on a sample port (config 0, one bit set) and what it returns is fed to the `port.set_config(...)` call in
+  # _set_port_config_bit: the statements that rewrite port.state / announce a port-status are reachable for PORT_DOWN only
+  lofm_ = repo.mod('openflow.libopenflow_01'); php_ = lofm_.classes.get('ofp_phy_port'); sc_ = php_.methods.get('set_config') if php_ else None
+  if sc_ is not None and len(spb.params) >= 4:
+    ctx.analysed(sc_); gsc_ = q.cfg_of(sc_); gsp_ = q.cfg_of(spb)
+    pv_, bv_, vv_ = spb.params[1], spb.params[2], spb.params[3]
+    def ret_of_set_config (bitval):
+      vals = set()
+      for p_, e_ in q.paths_under(repo, lofm_, gsc_, q.Env({'self.config': 0, sc_.params[1]: bitval, sc_.params[2]: bitval}), gsc_.entry, [n_ for n_ in gsc_.nodes if n_.kind == 'return'], php_, limit=20):
+        try: vals.add(q.eval_env2(repo, lofm_, p_[-1].ast.value, e_, php_))
+        except Exception: vals.add('?')
+      return list(vals)[0] if len(vals) == 1 else '?'
+    touch = [n_ for n_ in gsp_.nodes if (isinstance(n_.ast, (ast.Assign, ast.AugAssign)) and any(norm(t_) == pv_ + '.state' for t_ in (n_.ast.targets if isinstance(n_.ast, ast.Assign) else [n_.ast.target])))
+             or any(call_name(c_) == 'send_port_status' for c_ in q.node_calls(n_))]
+    ctx.floor('link-state statements in _set_port_config_bit', len(touch), 2)
+    is_sc = lambda e: isinstance(e, ast.Call) and call_name(e) == 'set_config'
+    und_ = False; wrong_ = []
+    for bn_ in ('OFPPC_PORT_DOWN', 'OFPPC_NO_FLOOD', 'OFPPC_NO_FWD', 'OFPPC_NO_RECV', 'OFPPC_NO_PACKET_IN'):
+      b_ = repo.try_const(swmod, ast.parse(bn_, mode='eval').body, sw)
+      if not isinstance(b_, int): und_ = True; continue
+      r_ = ret_of_set_config(b_)
+      if r_ == '?': und_ = True; continue
+      reach = q.reach_under_cp(repo, swmod, gsp_, q.Env({bv_: b_, vv_: b_, pv_ + '.config': b_, pv_ + '.state': 0}, [(is_sc, r_)]), sw)
+      hit = [n_ for n_ in touch if n_ in reach]
+      if bool(hit) != (bn_ == 'OFPPC_PORT_DOWN'): wrong_.append((bn_, r_, bool(hit)))
+    if und_ and not wrong_:
+      ctx.undecided('R-AGREE', spb, "only a change of PORT_DOWN rewrites the link state", "set_config / the bit constants could not be evaluated", spb, 'D4')
+    else:
+      ctx.ob('R-AGREE', spb, "only a change of PORT_DOWN rewrites the link state", not wrong_, "PORT_DOWN reaches the link-state block, the other bits do not (set_config evaluated on a sample port)" if not wrong_ else
+             "setting %s on a port: ofp_phy_port.set_config returns %r and with that the link-state block of _set_port_config_bit is %s - %s"
+             % (wrong_[0][0], wrong_[0][1], "reached" if wrong_[0][2] else "not reached",
+                "a port-mod that only sets NO_FLOOD / NO_FWD / NO_RECV marks the port link-down (and announces it): nothing is emitted on a port that is up" if wrong_[0][2] else "taking a port down no longer sets OFPPS_LINK_DOWN"), spb, 'D4')
   cs = [c for c in calls_in(pm.node) if call_name(c) == '_set_port_config_bit']
   if cs:
     c = cs[0]
